@@ -100,7 +100,7 @@ func init() {
 var invalidSnippets = []string{
 	"break;", "continue;", "return 1;", "return;", "L: { continue L; }", "while (1) { break M; }", "while (1) { continue M; }", "L: L: ;", "L: { L: ; }", "L: while (1) { L: ; }",
 	"M: if (x) continue M;", "function f() { break; }", "function f() { L: (function () { break L; }); }", "while (1) (function () { break; });", "switch (1) { case 1: continue; }",
-	"1 = x;", "1++;", "++1;", "--'a';", "(a + b) = 1;", "a + b = 1;", "(a, b) = 1;", "this = 1;", "null = 1;", "true++;", "for (1 in o) ;", "for (a + b in o) ;", "for (var a, b in o) ;", "x = typeof = 1;",
+	"1 = x;", "1++;", "++1;", "--'a';", "(a + b) = 1;", "a + b = 1;", "(a, b) = 1;", "this = 1;", "null = 1;", "true++;", "for (1 in o) ;", "for (a + b in o) ;", "for (var a, b in o) ;", "for (x = a ? b : c in o;;) ;", "for (a ? b : c in o;;) ;", "for (var v = a ? b : c in o;;) ;", "for (x = a || b in o;;) ;", "for (x = function(){} in o;;) ;", "for (x = y = 1 in o;;) ;", "for (var v = a, w = b in o;;) ;", "x = typeof = 1;",
 	"try {}", "try {} catch {}", "try {} catch () {}", "try x; catch (e) {}", "; catch (e) {}", "; finally {}", "switch (1) { default: default: }", "switch (1) { case: }", "switch (1) { x }", "case 1:", "default:", "; else ;", "if (1) else ;",
 	"\"unterminated", "'unterminated", "\"line\nbreak\"", "/* unterminated", "/unterminated", "x = /a", "x = /(/;", "x = /[/;", "x = /a**/;", "x = /a{2,1}/;", "x = /[b-a]/;", "x = /?/;", "x = /)/;", "x = /(?<n>a)/;", "x = /a/gg;", "x = /a/x;",
 	"var if = 1;", "var class;", "var enum;", "var new;", "if: ;", "function f(new) {}", "function if() {}", "function () {}", "function f( {}", "function f(a,) {}", "var 1;", "var;", "var a = ;", "var a b;",
